@@ -150,7 +150,7 @@ func newHostWorld(n int) *hostWorld {
 	}
 	w.contractor = testutil.VerifNewContractor(ctip)
 	w.sectors = &vSectors{has: map[types.Hash256]bool{}}
-	w.server = rhp4.NewServer(w.hostKey, w.chain, w.contractor, nil, vSettings{}, w.sectors)
+	w.server = rhp4.NewServer(w.hostKey, w.chain, lockChecked{w.contractor}, nil, vSettings{}, w.sectors)
 	for i := 0; i < n; i++ {
 		w.roots = append(w.roots, rootN(i))
 	}
@@ -380,5 +380,23 @@ func descendingDistinct(idx []uint64) bool {
 }
 
 func rhp4NewServer(w *hostWorld) *rhp4.Server {
-	return rhp4.NewServer(w.hostKey, w.chain, w.contractor, nil, vSettings{}, w.sectors)
+	return rhp4.NewServer(w.hostKey, w.chain, lockChecked{w.contractor}, nil, vSettings{}, w.sectors)
+}
+
+// lockChecked: every write to a contract happens while the handler holds the
+// contract's lock (this is what serialises RPCs on one contract: a handler
+// that let go of the lock before persisting could straddle a renewal).
+type lockChecked struct{ *testutil.EphemeralContractor }
+
+func (c lockChecked) ReviseV2Contract(id types.FileContractID, rev types.V2FileContract, roots []types.Hash256, u proto4.Usage) error {
+	vapi.Assert("persist.contract-locked", c.VerifLocked(id))
+	return c.EphemeralContractor.ReviseV2Contract(id, rev, roots, u)
+}
+func (c lockChecked) CreditAccountsWithContract(d []proto4.AccountDeposit, id types.FileContractID, rev types.V2FileContract, u proto4.Usage) ([]types.Currency, error) {
+	vapi.Assert("persist.contract-locked", c.VerifLocked(id))
+	return c.EphemeralContractor.CreditAccountsWithContract(d, id, rev, u)
+}
+func (c lockChecked) CreditPoolsWithContract(d []proto4.AccountDeposit, id types.FileContractID, rev types.V2FileContract, u proto4.Usage) ([]types.Currency, error) {
+	vapi.Assert("persist.contract-locked", c.VerifLocked(id))
+	return c.EphemeralContractor.CreditPoolsWithContract(d, id, rev, u)
 }
